@@ -197,9 +197,14 @@ pub(crate) fn select_change_pool(
         // Orchard notes, and only if strictly less value returns to the pool than the
         // notes remove from it. Change that cannot go to Orchard flows onward to the
         // Ironwood pool.
+        //
+        // The value returning to the pool is the change together with any Orchard outputs the
+        // request itself creates; a sum that overflows certainly exceeds the input value.
+        let max_orchard_return = _max_change_value + _net_flows.orchard_out;
         if _ironwood_active
             && preferred == ShieldedPool::Orchard
-            && (!_net_flows.orchard_in.is_positive() || _max_change_value >= _net_flows.orchard_in)
+            && (!_net_flows.orchard_in.is_positive()
+                || max_orchard_return.is_none_or(|v| v >= _net_flows.orchard_in))
         {
             ShieldedPool::Ironwood
         } else {
